@@ -9,6 +9,7 @@ import Driver.C25
 import Driver.C31
 import Driver.C37
 import Driver.C12
+import Driver.C14
 open Mitum Mitum.Driver
 
 def step (line : String) : String :=
@@ -18,6 +19,7 @@ def step (line : String) : String :=
   | "C06" :: ts => stepC06 ts
   | "C07" :: ts => stepC07 ts
   | "C12" :: ts => stepC12 ts
+  | "C14" :: ts => stepC14 ts
   | "C22" :: ts => stepC22 ts
   | "C23" :: ts => stepC23 ts
   | "C24" :: ts => stepC24 ts
